@@ -489,7 +489,7 @@ func runScenario(s *bScript, tr int, slow int) *trace.Log {
 	inner.ClientInflightMessages = s.Config.Window
 	inner.ClientParallelPublishes = s.Config.PubPar
 	inner.ClientParallelSubscribes = s.Config.SubPar
-	inner.ClientTokenTimeout = ms(s.Config.TokenMS, 3000)
+	inner.ClientTokenTimeout = ms(s.Config.TokenMS, 9000) // (longer than the kill timeout, as the library's defaults 30 s and 5 s are)
 	inner.KillTimeout = ms(s.Config.KillMS, 3000)
 	inner.ClientMaximumKeepAlive = ms(s.Config.MaxKA, 0)
 	if s.Config.MaxKA == 0 {
